@@ -72,16 +72,27 @@ class Arr:
         self.mask_id = None
         self.true_count = None
 
+    def _s(self):
+        """Snapshot of the current contents (derived arrays must not see later in-place stores)."""
+        r = Arr(self.axes, self._fn, self.dtype, self.name)
+        r._memo = self._memo
+        r.mask_id, r.true_count = self.mask_id, self.true_count
+        for k in ("inverse", "sorted_fact", "prefix_ghost", "_flat", "flat_of", "store_dtype"):
+            if hasattr(self, k):
+                setattr(r, k, getattr(self, k))
+        return r
+
     # -- evaluation
     def at(self, *comps):
         comps = tuple(num(c) for c in comps)
         k = tuple(_key(c) for c in comps)
-        m = self._memo.get(k)
-        if m is None:
-            m = self._fn(*comps)
-            if isinstance(m, (int, float)) and not isinstance(m, bool):
-                m = Num(m)
-            self._memo[k] = m
+        hit = self._memo.get(k)
+        if hit is not None:
+            return hit[1]
+        m = self._fn(*comps)
+        if isinstance(m, (int, float)) and not isinstance(m, bool):
+            m = Num(m)
+        self._memo[k] = (comps, m)     # comps kept alive: z3 AST ids are reused after collection
         return m
 
     @property
@@ -133,7 +144,8 @@ class Arr:
     def real(self):
         if self.dtype != "complex":
             return self
-        return Arr(self.axes, lambda *c: sym.cx(self.at(*c)).re, "float")
+        me = self._s()
+        return Arr(self.axes, lambda *c: sym.cx(me.at(*c)).re, "float")
 
     @property
     def imag(self):
@@ -201,14 +213,14 @@ class Arr:
         if isinstance(o, (list, tuple)):
             o = from_list(o)
         if not isinstance(o, Arr):
-            a = self
+            a = self._s()
             dt = dtype or _promote(a.dtype, _scalar_dtype(o))
 
             def fn(*c):
                 x = a.at(*c)
                 return op(o, x) if rev else op(x, o)
             return Arr(a.axes, fn, dt)
-        a, b = (o, self) if rev else (self, o)
+        a, b = (o._s(), self._s()) if rev else (self._s(), o._s())
         axes, ma, mb = broadcast_axes(a.axes, b.axes)
         dt = dtype or _promote(a.dtype, b.dtype)
 
@@ -256,10 +268,12 @@ class Arr:
         return self._ew(o, lambda x, y: x ** y, True)
 
     def __neg__(self):
-        return Arr(self.axes, lambda *c: -self.at(*c), self.dtype)
+        me = self._s()
+        return Arr(self.axes, lambda *c: -me.at(*c), self.dtype)
 
     def __abs__(self):
-        return Arr(self.axes, lambda *c: abs(self.at(*c)), self.dtype)
+        me = self._s()
+        return Arr(self.axes, lambda *c: abs(me.at(*c)), self.dtype)
 
     def __lt__(self, o):
         return self._ew(o, lambda x, y: x < y, dtype="bool")
@@ -289,7 +303,8 @@ class Arr:
         return self._ew(o, lambda x, y: sbool(x) | sbool(y), dtype="bool")
 
     def __invert__(self):
-        return Arr(self.axes, lambda *c: ~sbool(self.at(*c)), "bool")
+        me = self._s()
+        return Arr(self.axes, lambda *c: ~sbool(me.at(*c)), "bool")
 
     def __contains__(self, v):
         """`v in arr`  (1-D): exists k. arr[k] == v  -- as a fresh uninterpreted predicate
@@ -428,7 +443,7 @@ class Arr:
             pass
         if not new_axes:
             return self.at(*m(()))
-        src = self
+        src = self._s()
         return Arr(new_axes, lambda *c: src.at(*m(c)), self.dtype)
 
     def __setitem__(self, key, val):
